@@ -1,5 +1,5 @@
 SPECIFICATION Spec
-CONSTANTS Mode = "linear"  Variant = "ok"  Family = "sweep"  List = { }  Steps = 3
+CONSTANTS Mode = "linear"  Variant = "ok"  Family = "sweep"  List = { }  Steps = 3  PairMod = 1
           Extra = { 1002, 1103, 1011 }
 INVARIANT TypeOK
 INVARIANT Linear
